@@ -49,6 +49,40 @@ static void work(P mine, long iters, unsigned long long seed, std::atomic<int>* 
     if (mine.use_count() < 1) ++g_errors;
 }
 
+// ---- release race: k threads each hold one handle to each of N objects and let go of object i at (nearly) the same
+// moment (per-object spin barrier).  The Deleter only COUNTS its calls (the memory is released by main afterwards), so
+// a second Deleter call is detected as such, not as a crash: every object must see exactly one call.
+struct Obj2 : public tlx::ReferenceCounter {
+    std::atomic<int> deleter_calls{0};
+};
+struct CountDel {
+    void operator()(Obj2* p) const noexcept { p->deleter_calls.fetch_add(1); }
+};
+using PR = tlx::CountingPtr<Obj2, CountDel>;
+
+static long release_race(int k, int nobj) {
+    std::vector<Obj2*> objs(nobj);
+    std::vector<std::vector<PR>> hs(k);
+    std::vector<std::atomic<int>> arrive(nobj);
+    for (int i = 0; i < nobj; ++i) { objs[i] = new Obj2(); arrive[i] = 0; }
+    for (int t = 0; t < k; ++t) { hs[t].reserve(nobj); for (int i = 0; i < nobj; ++i) hs[t].emplace_back(objs[i]); }
+    std::vector<std::thread> th;
+    for (int t = 0; t < k; ++t)
+        th.emplace_back([&, t] {
+            for (int i = 0; i < nobj; ++i) {
+                arrive[i].fetch_add(1);
+                while (arrive[i].load(std::memory_order_acquire) < k) {}
+                if (i % 3 == 0) hs[t][i].reset(); else if (i % 3 == 1) hs[t][i] = PR(); else { PR x(std::move(hs[t][i])); }
+            }
+        });
+    for (auto& t : th) t.join();
+    long wrong = 0;
+    for (int i = 0; i < nobj; ++i) { if (objs[i]->deleter_calls.load() != 1) ++wrong; }
+    for (int t = 0; t < k; ++t) hs[t].clear();
+    for (int i = 0; i < nobj; ++i) delete objs[i];
+    return wrong;
+}
+
 int main(int argc, char** argv) {
     int rounds = argc > 1 ? atoi(argv[1]) : 3;
     int k = argc > 2 ? atoi(argv[2]) : 3;
@@ -71,6 +105,11 @@ int main(int argc, char** argv) {
         bool ok = g_dtor == 1 && g_live == 0 && g_errors == 0;
         printf("stress round=%d threads=%d iters=%ld destroyed=%d live=%d errors=%ld %s\n", r, k, iters, g_dtor.load(), g_live.load(), g_errors.load(), ok ? "ok" : "BAD");
         if (!ok) ++bad;
+    }
+    for (int r = 0; r < rounds; ++r) {
+        long wrong = release_race(k, 20000);
+        printf("release-race round=%d threads=%d objects=20000 objects_with_deleter_calls_not_1=%ld %s\n", r, k, wrong, wrong ? "BAD" : "ok");
+        if (wrong) ++bad;
     }
     return bad ? 1 : 0;
 }
